@@ -74,7 +74,20 @@ TrPair ==
     /\ l' = l + 1
     /\ bad' = IF bad # "none" THEN bad ELSE PairVerdict(Trace[l])
 
-TraceNext == TrBegin \/ TrCase \/ TrPair
+(* Blocks pushed by the provider (event "status"): an altered block must not reach the subscribers, and what GetStatus reports   *)
+(* as the latest block afterwards is a canonical block of the chain (bound to a verified header) or nothing.                  *)
+StatusVerdict(e) ==
+    IF "panic" \in DOMAIN e THEN "panic"
+    ELSE IF e.altered_notified THEN "pushed_block_unbound"
+    ELSE IF ~e.status_canonical THEN "status_unbound"
+    ELSE "none"
+
+TrStatus ==
+    /\ l <= Len(Trace) /\ Trace[l].ev = "status"
+    /\ l' = l + 1
+    /\ bad' = IF bad # "none" THEN bad ELSE StatusVerdict(Trace[l])
+
+TraceNext == TrBegin \/ TrCase \/ TrPair \/ TrStatus
 
 TraceSpec == TraceInit /\ [][TraceNext]_tvars
 
